@@ -164,6 +164,9 @@ def run(ctx, F):
                 ctx.judge(nf is False, "C13.forward-once", "%s.needs_forward_after_liveness" % nm, expected="false (no forwarding pass scheduled)", found=str(nf),
                           key="C13.forward-once|const|" + nm)
 
+    # ---- C13.trace-kind (shared with C06: sched.check_trace_kinds)
+    check_trace_kinds(ctx, F, "C13.trace-kind", sites, ("RefForwarding", "FinalizableForwarding", "VMRefForwarding"), ("SoftRefClosure", "FinalRefClosure", "VMRefClosure"), 12)
+
     # ---- C13.tracer-flush
     wt = [f for q, f in F.fns.items() if re.search(r"DefaultObjectTracerContext as .*ObjectTracerContext>::with_tracer$", q)]
     ctx.require(len(wt) == 1, "C13.tracer-flush: with_tracer of DefaultObjectTracerContext not found")
